@@ -4,6 +4,7 @@ Driver handler for the graph family (C02, C05, C08 and the traversal part of oth
 import Driver.Util
 import Driver.ArgStore
 import FiddleModel.Model.Graph
+import FiddleModel.Model.Select
 open Lean Fiddle
 
 namespace Driver.Graph
@@ -139,6 +140,62 @@ def berrJson : BErr → Json
   | .malformed => mkObj [("err", .str "malformed")]
   | .fuel => mkObj [("err", .str "fuel")]
 
+def childrenJson (ch : List (PElem × GVal)) : Json :=
+  jArr (ch.map fun c => jArr [pelemJson c.1, gvalJson c.2])
+
+/-- per-object view used to compare edits: kind, callable, type, tags, children -/
+def heapJson (h : Heap) : Json :=
+  jArr (h.map fun o => mkObj [("k", .str (kindName o.kind)), ("fn", .str o.ty), ("bk", .str o.bk),
+    ("ch", childrenJson o.children),
+    ("tags", jArr (o.tags.map fun kt => jArr [Driver.ArgStore.keyJson kt.1, jArr (kt.2.map jNat)]))])
+
+/-- structural view of an argument value: containers are expanded, Buildables and opaque
+    objects are named by identity (index) -/
+partial def shapeVal (h : Heap) (v : GVal) : Json :=
+  match v with
+  | .atom t => mkObj [("a", .str t)]
+  | .ref i =>
+    match h[i]? with
+    | none => .null
+    | some o =>
+      if o.kind == .cfg then mkObj [("r", jNat i)]
+      else if o.kind == .opaque then mkObj [("o", .str o.ty)]
+      else mkObj [("c", .str (kindName o.kind)),
+                  ("ch", jArr (o.children.map fun c => jArr [pelemJson c.1, shapeVal h c.2]))]
+
+/-- for every Buildable of `ids`: callable, tags and the shapes of its arguments -/
+def cfgShapes (h : Heap) (ids : List Nat) : Json :=
+  jArr (ids.filterMap fun i =>
+    match h[i]? with
+    | some o => if o.kind == .cfg then
+        some (jArr [jNat i, .str o.ty,
+          jArr (o.children.map fun c => jArr [pelemJson c.1, shapeVal h c.2]),
+          jArr (o.tags.map fun kt => jArr [Driver.ArgStore.keyJson kt.1, jArr (kt.2.map jNat)])])
+      else none
+    | none => none)
+
+def parseBases (j : Json) : R (List (String × List String)) := do
+  (← jlist j).mapM fun e => do
+    let a ← jlist e
+    return (← jstr (← jidx a 0), ← (← jlist (← jidx a 1)).mapM jstr)
+
+def parseMatcher (j : Json) : R Matcher := do
+  let target ← match jgetD j "target" .null with
+    | .null => pure none
+    | t => do pure (some (← jstr t))
+  return { target := target, matchSub := (← jbool (← jget j "match_sub")),
+           btype := (← jstr (← jget j "btype")),
+           classes := (← parseBases (← jget j "classes")),
+           bkBases := (← parseBases (← jget j "bk_bases")) }
+
+def parseKvs (j : Json) : R (List (PElem × GVal)) := do
+  (← jlist j).mapM fun c => do
+    let a ← jlist c
+    return (← parsePElem (← jidx a 0), ← parseGVal (← jidx a 1))
+
+/-- tag subclass relation: `pairs` lists (tag, ancestor) incl. reflexive pairs -/
+def subOfPairs (pairs : List (Nat × Nat)) (a b : Nat) : Bool := a == b || pairs.contains (a, b)
+
 def prefixes (p : Path) : List Path := (List.range (p.length + 1)).map (fun n => p.take n)
 
 def handle (req : Json) : R Json := do
@@ -172,6 +229,47 @@ def handle (req : Json) : R Json := do
       -- soundness cross-check inside the model: every yielded pair resolves to its value
       let ok := (iterate h .basic root).all fun vp => followPath h root vp.2 == some vp.1
       out := out ++ [(q, .bool ok)]
+    | "reachable" =>
+      out := out ++ [(q, jArr ((reachableIds h root).mergeSort.map jNat))]
+    | "select" =>
+      let m ← parseMatcher (← jget req "matcher")
+      out := out ++ [(q, jArr ((selectIds h root m.matches).mergeSort.map jNat))]
+    | "select_set" =>
+      let m ← parseMatcher (← jget req "matcher")
+      let kvs ← parseKvs (← jget req "kvs")
+      let h' := Heap.setOn h (selectIds h root m.matches) kvs
+      out := out ++ [(q, cfgShapes h' (reachableIds h root).mergeSort)]
+    | "select_replace" =>
+      let m ← parseMatcher (← jget req "matcher")
+      let v ← parseGVal (← jget req "value")
+      let ids := selectIds h root m.matches
+      let h' := Heap.replaceRefs h ids v
+      let root' := replaceRoot ids v root
+      out := out ++ [(q, mkObj [("shapes", cfgShapes h' (reachableIds h' root').mergeSort),
+                                ("root", shapeVal h' root')])]
+    | "set_tagged" =>
+      let pairs ← (← jlist (← jget req "tag_sub")).mapM fun e => do
+        let a ← jlist e
+        return (← jnat (← jidx a 0), ← jnat (← jidx a 1))
+      let T ← jnat (← jget req "tag")
+      let v ← parseGVal (← jget req "value")
+      let h' := Heap.setTagged h root (subOfPairs pairs) T v
+      out := out ++ [(q, cfgShapes h' (reachableIds h root).mergeSort)]
+    | "list_tags" =>
+      out := out ++ [(q, jArr ((listTags h root).mergeSort.map jNat))]
+    | "tag_values" =>
+      let pairs ← (← jlist (← jget req "tag_sub")).mapM fun e => do
+        let a ← jlist e
+        return (← jnat (← jidx a 0), ← jnat (← jidx a 1))
+      let T ← jnat (← jget req "tag")
+      let res := (reachableIds h root).mergeSort.filterMap fun i =>
+        match h[i]? with
+        | some o => if o.kind == .cfg then
+            some (jArr [jNat i, jArr ((tagValues (subOfPairs pairs) T o).map fun kv =>
+              jArr [Driver.ArgStore.keyJson kv.1, match kv.2 with | some v => shapeVal h v | none => .null])])
+          else none
+        | none => none
+      out := out ++ [(q, jArr res)]
     | "build" =>
       match build h fails root with
       | .error e => out := out ++ [(q, berrJson e)]
